@@ -24,7 +24,7 @@ TBegin ==
      /\ pc[t].op = "idle"
      /\ pc' = [pc EXCEPT ![t] =
           CASE Line.op = "inst"    -> [op |-> "inst", stage |-> "check", name |-> Line.name, want |-> Line.want,
-                                       m |-> 0, err |-> ""]
+                                       m |-> 0, err |-> "", start |-> Line.start]
             [] Line.op = "close"   -> [op |-> "close", stage |-> "cas", m |-> Line.m]
             [] Line.op = "lookup"  -> [op |-> "lookup", stage |-> "lock", name |-> Line.name]
             [] Line.op = "rtclose" -> [op |-> "rtclose", stage |-> "cas", cur |-> 0]
@@ -102,4 +102,5 @@ Post == PrintHigh /\ TraceAccepted
 TThreads == {"g1", "g2", "g3", "g4", "g5", "g6"}
 TNames == {"a", "b", "c", ""}
 TOps == {"inst", "close", "lookup", "rtclose", "compile", "hostcompile"}
+StartsBoth == {"none", "exit"}
 =============================================================================
